@@ -33,8 +33,8 @@ package chord
 //@   ensures maxlen: len(r) <= maxLen
 //@   ensures nonnil: forall i int :: 0 <= i && i < len(r) ==> r[i] != nil
 //@   ensures nodup: forall i, j int :: 0 <= i && i < j && j < len(r) ==> r[i].ID() != r[j].ID()
-//@   ensures from-input: forall a int :: 1 <= a && a < len(r) ==> 0 <= src[a] && src[a] < len(successors) && r[a] == successors[src[a]]
-//@   ensures order: forall a, b int :: 1 <= a && a < b && b < len(r) ==> src[a] < src[b]
+//@   ensures local-from-input: forall a int :: 1 <= a && a < len(r) ==> 0 <= src[a] && src[a] < len(successors) && r[a] == successors[src[a]]
+//@   ensures local-order: forall a, b int :: 1 <= a && a < b && b < len(r) ==> src[a] < src[b]
 //@   ensures input-unchanged: unchanged(successors)
 //@   at call append#1: ghost src[len(succList)] := rangeindex
 //@   loop succ: invariant bounds: -1 <= rangeindex && rangeindex < len(successors) && len(succList) >= 1 && len(succList) <= maxLen
@@ -55,8 +55,8 @@ package chord
 //@   ensures maxlen: len(r) <= maxLen
 //@   ensures nonnil: forall i int :: 0 <= i && i < len(r) ==> r[i] != nil
 //@   ensures nodup: forall i, j int :: 0 <= i && i < j && j < len(r) ==> addrOf(r[i]) != addrOf(r[j])
-//@   ensures from-input: forall a int :: 1 <= a && a < len(r) ==> 0 <= src[a] && src[a] < len(successors) && r[a] == successors[src[a]]
-//@   ensures order: forall a, b int :: 1 <= a && a < b && b < len(r) ==> src[a] < src[b]
+//@   ensures local-from-input: forall a int :: 1 <= a && a < len(r) ==> 0 <= src[a] && src[a] < len(successors) && r[a] == successors[src[a]]
+//@   ensures local-order: forall a, b int :: 1 <= a && a < b && b < len(r) ==> src[a] < src[b]
 //@   ensures input-unchanged: unchanged(successors)
 //@   at call append#1: ghost src[len(succList)] := rangeindex
 //@   loop succ: invariant bounds: -1 <= rangeindex && rangeindex < len(successors) && len(succList) >= 1 && len(succList) <= maxLen
@@ -83,3 +83,7 @@ package chord
 //@ interface (v VNode) FindSuccessor(key uint64) (r VNode, err error)
 //@   opt recursion=lookup
 //@   decreases dist48(v.ID() + 1, key)
+//@   ensures non-nil-result: err == nil ==> r != nil
+
+// the errors a caller may retry (the registry itself is checked under C14)
+//@ spec retryableChord(e error) bool = e == ErrJoinInvalidState || e == ErrJoinTransferFailure || e == ErrJoinInvalidSuccessor || e == ErrLeaveInvalidState || e == ErrLeaveTransferFailure || e == ErrKVStaleOwnership || e == ErrKVPendingTransfer
